@@ -44,6 +44,15 @@ Proof. vm_compute. reflexivity. Qed.
 Theorem C08_every_handler_one_section : forallb handler_ok handler_sections = true.
 Proof. vm_compute. reflexivity. Qed.
 
+(* a store method is ONE lock section: it acquires the lock once and calls no other locking method
+   (two consecutive sections are two steps: another client's command can run in between).
+   copy/move acquire in two exclusive branches. *)
+Definition method_one_section (m : string * nat) : bool :=
+  Nat.leb (snd m) 1 || (mem (fst m) locks_in_both_branches && Nat.leb (snd m) 2).
+
+Theorem C08_every_method_one_section : forallb method_one_section method_sections = true.
+Proof. vm_compute. reflexivity. Qed.
+
 (* the exceptions are real methods: a renamed or removed method re-opens the audit *)
 Theorem C08_exceptions_exist :
   forallb (fun n => existsb (fun m => String.eqb n (fst (fst (fst m)))) store_methods)
